@@ -132,7 +132,7 @@ def expect_args(pattern, n, private):
     return tuple(out)
 
 
-def dispatch_tables(ctx, chk, prop='C03', only=None, quiet=False):
+def dispatch_tables(ctx, chk, prop='C03', only=None, quiet=False, esc=None, basic=None):
     """R-DISPATCH: the three decision tables, entry by entry; returns the extracted tables
     (used to expand dispatch events of the automaton)"""
     prog = ctx.prog
@@ -162,7 +162,7 @@ def dispatch_tables(ctx, chk, prop='C03', only=None, quiet=False):
         ref = ESC_REF.get(c)
         exp = {((ref, ()),)} if ref else {()}
         nesc += 1
-        if only is None and not quiet:
+        if (only is None and not quiet) or (esc and c in esc):
             chk.instance('R-DISPATCH', 'escape_dispatch', 'final %r' % c, out == exp, nontrivial=(ref is not None),
                          detail='extracted %s, reference %s' % (sorted(out), sorted(exp)),
                          what='ESC %r: dispatches %s, documented %s' % (c, _fmt(out), _fmt(exp)))
@@ -170,7 +170,7 @@ def dispatch_tables(ctx, chk, prop='C03', only=None, quiet=False):
         tables['basic'][c] = out
         ref = BASIC_REF.get(c)
         exp = {((ref, ()),)} if ref else {()}
-        if only is None and not quiet:
+        if (only is None and not quiet) or (basic and c in basic):
             chk.instance('R-DISPATCH', 'basic_dispatch', 'control %r' % c, out == exp, nontrivial=(ref is not None),
                          detail='extracted %s, reference %s' % (sorted(out), sorted(exp)),
                          what='control %r: dispatches %s, documented %s' % (c, _fmt(out), _fmt(exp)))
@@ -662,7 +662,7 @@ def run(ctx, chk):
     chk.trust('generator-rs send/yield_ contract (A-GEN)', 'string summaries (eq, contains, chars, parse)', 'rustc MIR + const evaluation')
 
 
-def param_fidelity(ctx, chk, fsm=False, prop=None, finals=None):
+def param_fidelity(ctx, chk, fsm=False, prop=None, finals=None, esc=None, basic=None):
     """R-CAP: the numbers typed in a control sequence reach the listener as typed - empty = 0, the
     parsed number itself capped at 9999 (not a narrowed copy), an unparsable run saturating.  Every
     property about an operation with a numeric parameter (counts, coordinates, selectors, mode numbers)
@@ -684,7 +684,8 @@ def param_fidelity(ctx, chk, fsm=False, prop=None, finals=None):
         # carried into the next one: witnesses through the extracted automaton
         # .. and the dispatch rows of this property's own finals (which method, which parameter goes
         # where, for 0..3 parameters, private or not)
-        tables = dispatch_tables(ctx, chk, prop or 'C03', only=set(finals) if finals else None, quiet=not finals)
+        tables = dispatch_tables(ctx, chk, prop or 'C03', only=set(finals) if finals else None, quiet=not finals,
+                                 esc=set(esc or ()), basic=set(basic or ()))
         run_fsm(ctx, chk, tables, prop=prop or 'C03', focus='params')
 
 
